@@ -375,3 +375,72 @@ pub(crate) fn stub_drop_log2(_l: &Log, id: u32) -> Result<()> {
 	}
 	Ok(())
 }
+
+// ================================================================== U51: every byte of a record has reached the log file when the file is synced
+// The log file is written through a std BufWriter. Two places can make sure nothing is still buffered when fdatasync runs:
+// LogChange::flush_to_file flushes the writer after each record (P1), or Log::flush_one unwraps the writer (which flushes it)
+// before it syncs (P2). The obligation "synced log files contain all their records" fails only if BOTH are gone; the two
+// harnesses form an alternative group (lib/units.py: alt="wal_bytes_reach_file_before_sync").
+pub(crate) static mut FILE_BYTES: usize = 0;
+pub(crate) static mut SYNC_SAW_BYTES: usize = usize::MAX;
+// <File as Write>::write by contract: the bytes are handed to the kernel (all of them), or the call fails -- never here
+pub(crate) fn stub_file_write(_f: &mut std::fs::File, buf: &[u8]) -> std::io::Result<usize> {
+	unsafe { FILE_BYTES += buf.len() };
+	Ok(buf.len())
+}
+pub(crate) fn stub_sync_data_sees_bytes(_f: &std::fs::File) -> std::io::Result<()> {
+	unsafe { SYNC_SAW_BYTES = FILE_BYTES };
+	Ok(())
+}
+writer_harness!(#[kani::unwind(12)]
+	#[kani::stub(std::fs::File::sync_data, stub_sync_data_sees_bytes)]
+	#[kani::stub(<std::fs::File as std::io::Write>::write, stub_file_write)]
+	#[kani::stub(<std::os::fd::OwnedFd as std::ops::Drop>::drop, stub_owned_fd_drop)]
+	u51_flush_one_syncs_buffered_bytes, {
+	use std::{io::Write, os::fd::FromRawFd};
+	let mut log = std::mem::ManuallyDrop::new(mk_log());
+	log.sync = true;
+	let id: u32 = kani::any();
+	let file = unsafe { std::fs::File::from_raw_fd(3) };
+	let mut bw = std::io::BufWriter::with_capacity(8, file);
+	// five bytes of a record are still in the writer's buffer when the log is handed over
+	unsafe {
+		FILE_BYTES = 0;
+		SYNC_SAW_BYTES = usize::MAX;
+	}
+	let _ = bw.write_all(&[1u8, 2, 3, 4, 5]);
+	assert!(unsafe { FILE_BYTES } == 0 && bw.buffer().len() == 5, "verif: the bytes are buffered");
+	*log.appending.write() = Some(Appending { id, file: bw, size: 5 });
+	let r = ok(log.flush_one(0));
+	assert!(r.is_some(), "U51.flush_one.no_error");
+	if log.read_queue.read().len() == 1 {
+		assert!(unsafe { SYNC_SAW_BYTES } == 5, "U51.flush_one.buffered_record_bytes_reach_the_file_before_it_is_synced");
+	}
+	kani::cover!(log.read_queue.read().len() == 1, "reached");
+});
+writer_harness!(#[kani::unwind(40)]
+	#[kani::stub(<std::fs::File as std::io::Write>::write, stub_file_write)]
+	#[kani::stub(<std::os::fd::OwnedFd as std::ops::Drop>::drop, stub_owned_fd_drop)]
+	u51_flush_to_file_leaves_nothing_buffered, {
+	use std::os::fd::FromRawFd;
+	let file = unsafe { std::fs::File::from_raw_fd(3) };
+	let mut bw = std::mem::ManuallyDrop::new(std::io::BufWriter::with_capacity(64, file));
+	unsafe { FILE_BYTES = 0 };
+	let rid: u64 = kani::any();
+	// an empty record: BEGIN, id, END, checksum (14 bytes)
+	let change = LogChange::new(rid);
+	let r = match change.flush_to_file(&mut bw) {
+		Ok(f) => {
+			let b = f.bytes;
+			std::mem::forget(f);
+			Some(b)
+		},
+		Err(e) => {
+			std::mem::forget(e);
+			None
+		},
+	};
+	assert!(r == Some(14), "U51.flush_to_file.no_error");
+	assert!(bw.buffer().is_empty() && unsafe { FILE_BYTES } == 14, "U51.flush_to_file.nothing_of_the_record_stays_buffered");
+	kani::cover!(r.is_some(), "reached");
+});
